@@ -328,6 +328,9 @@ def build_doc(sc: dict) -> dict | None:
     if kind == "ops":
         paths = {f"/o{i}": {"get": {"operationId": n, "tags": ["T"], "summary": f"OPTOK{i}", "responses": {"204": {"description": "ok"}}}} for i, n in enumerate(names)}
         return concretise.wrap({}, paths)
+    if kind == "tags":
+        paths = {f"/t{i}": {"get": {"operationId": f"zzop{i}", "tags": [n], "summary": f"OPTOK{i}", "responses": {"204": {"description": "ok"}}}} for i, n in enumerate(names)}
+        return concretise.wrap({}, paths)
     if kind == "enumvals":
         return concretise.wrap({"Kind": {"type": sc["family"], "enum": [enum_value(n) for n in names]}})
     if kind == "tagops":
@@ -499,6 +502,22 @@ def observe(sc: dict, o: dict) -> tuple[dict | None, str]:
         req["enumvals"] = [cps(n) for n in declared]
         present["enumvals"] = [cps(nm) for nm, _ in mem]
         back["enumvals"] = [[cps(nm), cps(n)] for n in declared for nm, val in mem if any(type(val) is type(f) and val == f for f in forms[n])]
+    elif kind == "tags":
+        eps = nam.get("endpoints", [])
+        if not eps or not all(e["parse_ok"] for e in eps):
+            return None, "unparseable"
+        if not all(e["import_ok"] for e in eps):
+            return None, "unimportable"
+        # one namespace per tag (sharing a client class is by design): the client class that holds the tag's operation
+        for i, n in enumerate(names):
+            nsid = f"tags:{i}"
+            holders = [c["name"] for e in eps for c in e["classes"] if any(f"OPTOK{i}" in m["tokens"] for m in c["methods"])]
+            live = [cn for e in eps for cn, fns in e["live"].items() if any(f"OPTOK{i}" in info["tokens"] for info in fns.values())]
+            for h in holders[:1]:
+                ev.append(_ev(nsid, n, h))
+            req[nsid] = [cps(n)]
+            present[nsid] = [cps(x) for x in live]
+            back[nsid] = [[cps(x), cps(n)] for x in live]
     elif kind == "tagops":
         eps = nam.get("endpoints", [])
         if not eps or not all(e["parse_ok"] for e in eps):
@@ -625,7 +644,7 @@ def part_ii(chk: Check, scens: list[dict], label: str = "packages") -> None:
                 continue
             who = partner(t, f)
             loc = {"ns": f["ns"].split(":")[0], "names_suffixed": any(SUFFIXED.search(n) for n in who)}
-            if ":" in f["ns"]:
+            if sc["ns"] == "tagops":
                 # through which tag positions the names involved reach this client class (first tag = 1)
                 tag = f["ns"].split(":")[1]
                 loc["tag_positions"] = sorted({sc["tags"][sc["names"].index(n)].index(tag) + 1 for n in who if n in sc["names"] and tag in sc["tags"][sc["names"].index(n)]})
@@ -666,7 +685,7 @@ def run(chk: Check) -> None:
     chk.cov["rule"] = (
         f"(i) every string of length <={k1} over the alphabet {{a,B,1,_,-,space,.,$,U+00E9,U+540D}} plus 10 case/separator variants of every "
         f"keyword, plus every string of length <={ku} over 13 symbols representing Unicode classes (\\w-not-XID, XID_Continue-not-Start, NFKC-compatibility, length-changing case), through the 10 derivations on the generation path; (ii) every allocation order (sequence without repetition) of "
-        f"length <={k2} from 6 colliding families (one of NFKC-equivalent names) in each of 5 namespace kinds, plus enum value lists (<={k2 - 1} values, repetition allowed) that mix JSON types whose Python values compare equal, plus colliding operationIds (2..{k2 - 1} of them) reaching one client class through different tag positions (tag lists [T], [U,T], [T,U], [V,T]), generated + imported; non-trivial = input that is not "
+        f"length <={k2} from 6 colliding families (one of NFKC-equivalent names) in each of 5 namespace kinds, plus tags (<=2 names per family and the suffix triple; totality only), plus enum value lists (<={k2 - 1} values, repetition allowed) that mix JSON types whose Python values compare equal, plus colliding operationIds (2..{k2 - 1} of them) reaching one client class through different tag positions (tag lists [T], [U,T], [T,U], [V,T]), generated + imported; non-trivial = input that is not "
         f"already an ASCII identifier (i) / namespace with >=2 names (ii)"
     )
     chk.assumptions += [
